@@ -16,6 +16,7 @@ warnings.simplefilter("ignore", DeprecationWarning)
 TASK_BOUND = 32  # absolute ceiling for any single run; independence from the number of cycles is checked separately (long clause)
 LATENCIES = [0.0, 0.5, 3.0]
 LIFETIMES = [None, 0.0, 0.3, 2.0, 7.0, 30.0]
+EOF_MODES = ["eof:0.05", "eof:1.5", "eof:-3"]  # the peer half-closes: eof_received() first, connection_lost() 0.05 s / 1.5 s / 3 loop iterations later
 LIFETIMES_FAULTY = [-0.3, -2.0]  # negative: the connection is lost after |t| s and closing the dead transport raises OSError
 
 
@@ -156,6 +157,7 @@ step_st = st.one_of(
     st.tuples(st.just("fail"), st.sampled_from(LATENCIES), st.none()),
     st.tuples(st.just("ok"), st.sampled_from(LATENCIES), st.sampled_from(LIFETIMES[1:])),
     st.tuples(st.just("ok"), st.sampled_from(LATENCIES), st.sampled_from(LIFETIMES[1:] + LIFETIMES_FAULTY)),
+    st.tuples(st.just("ok"), st.sampled_from(LATENCIES), st.sampled_from(LIFETIMES[1:]), st.sampled_from(EOF_MODES)),
 )
 scenario_st = st.tuples(st.lists(step_st, min_size=0, max_size=5), st.lists(st.integers(0, 999), max_size=3))
 
@@ -163,6 +165,8 @@ scenario_st = st.tuples(st.lists(step_st, min_size=0, max_size=5), st.lists(st.i
 # ---- full grid (thorough) / reduced grid (quick) -----------------------------------------------------------------------------
 
 _STEPS = [("fail", lat, None) for lat in LATENCIES] + [("ok", lat, life) for lat in LATENCIES for life in LIFETIMES[1:]]
+_STEPS += [("ok", 0.0, 2.0, "eof:0.05"), ("ok", 0.5, 0.3, "eof:-3")]
+_STEPS_EOF = [("fail", 0.0, None), ("ok", 0.0, 0.3, "eof:0.05"), ("ok", 0.5, 2.0, "eof:-3"), ("ok", 0.0, 2.0, "eof:1.5"), ("ok", 0.0, 2.0)]
 _STEPS_QUICK = [("fail", 0.0, None), ("fail", 3.0, None), ("ok", 0.0, 0.0), ("ok", 0.5, 2.0), ("ok", 3.0, 7.0), ("ok", 0.0, -0.3)]
 
 
@@ -176,6 +180,13 @@ def _grid(tier):
 
 
 _GRID_CACHE = {}
+
+
+_EOF_GRID = [list(c) for n in range(1, 4) for c in itertools.product(_STEPS_EOF, repeat=n) if any(len(x) > 3 for x in c)]
+
+
+def eof_case(i, tier):
+    return (_EOF_GRID[i], [])
 
 
 def grid_case(i, tier):
@@ -253,6 +264,7 @@ def build() -> Check:
         ],
         clauses=[
             HypClause("scenarios", scenario_st, scenario_oracle, quick=1600, thorough=20000),
+            EnumClause("eof-grid", size=lambda tier: len(_EOF_GRID), case_at=eof_case, oracle=scenario_oracle, doc="all scripts of length <=3 over 5 steps with at least one connection that ends by a half-close (eof_received() first, connection_lost() 0.05 s / 1.5 s / 3 loop iterations later) x every injection point"),
             EnumClause("grid", size=grid_size, case_at=grid_case, oracle=scenario_oracle, doc="all scripts of length <=3 x every injection point"),
             EnumClause("long", size=lambda tier: len(long_cases(tier)), case_at=lambda i, tier: long_cases(tier)[i], oracle=long_oracle, doc="task bound over many reconnect cycles", exhaustive=False),
         ],
